@@ -11,7 +11,9 @@ cannot be lambdified: finding F5g).
   default  : pure and mixed circuits, `grad(x)` (parameter shift) evaluated as CQ maps
 An explicit NotImplementedError (default gradient through a 2-qubit rotation, gates.py:371) is
 a refusal: counted, checked to be the documented case, never a wrong answer.
-Correspondence: grad / jacobian of small integer-polynomial tensor diagrams on the Lean model.
+Correspondence: grad / jacobian of small integer-polynomial tensor diagrams on the Lean model
+(streams pgrad, pjac) and eval / grad of diagrams with a polynomial bubble (streams xeval, xgrad:
+tensor.Bubble.grad against the model's chain-rule terms).
 """
 import random
 import time
@@ -367,6 +369,110 @@ def model_stream(rep, drv, rng, n_cases):
         if real != model:
             rep.disagree(stream, case, real[:400], model[:400])
     rep.extra["model_stream_s"] = round(time.time() - t0, 2)
+    return flag
+
+
+def tok_layer(l, syms):
+    def dims(x):
+        return " ".join([str(len(x))] + [str(k) for k in x])
+    return " ".join([dims(l.get("left", [])), dims(l.get("right", [])), dims(l["dom"]), dims(l["cod"]),
+                     "1" if l["dagger"] else "0", str(len(l["data"]))] + [tok_poly(e, syms) for e in l["data"]])
+
+
+def tok_xdiagram(dom, xlayers, syms):
+    """`<dom> <nlayers> xlayer*` (Driver/ParamCmd.lean): plain boxes and single-wire bubbles."""
+    def dims(x):
+        return " ".join([str(len(x))] + [str(k) for k in x])
+    out = [dims(dom), str(len(xlayers))]
+    for l in xlayers:
+        if l["kind"] == "bubble":
+            out += [dims([]), dims([]), "1", dims(l["dom"]), dims(l["cod"]),
+                    " ".join([str(len(l["func"]))] + [str(c) for c in l["func"]]),
+                    str(len(l["inside"]))] + [tok_layer(x, syms) for x in l["inside"]]
+        else:
+            out += [dims([]), dims([]), "0", dims(l["dom"]), dims(l["cod"]),
+                    "1" if l["dagger"] else "0", str(len(l["data"]))] + [tok_poly(e, syms) for e in l["data"]]
+    return " ".join(out)
+
+
+def bubble_model_case(rng, syms):
+    """pre? >> inside.bubble(func) >> post?  with integer-polynomial boxes, `func` a polynomial with
+    integer coefficients given to both sides as its coefficient list."""
+    g = pl.TensorGen(rng, syms, polyonly=True, maxdim=6)
+    a, b = rng.choice([1, 2, 2, 3]), rng.choice([1, 2, 2])
+    composite = rng.random() < 0.3
+    g.maxdeg = 1 if composite else 2
+    deg = rng.randint(1, 2 if composite else 3)
+    cs = [rng.choice([-2, -1, 0, 1, 1, 2]) for _ in range(deg)] + [rng.choice([-1, 1, 2])]
+
+    def func(v, cs=tuple(cs)):
+        return sum(c * v ** k for k, c in enumerate(cs))
+    da, db = ([a] if a > 1 else []), ([b] if b > 1 else [])
+    if composite:
+        m = 2
+        b1, s1 = g.box(da, [m])
+        b2, s2 = g.box([m], db, symbolic=rng.random() < 0.7)
+        inside, ispec = b1 >> b2, [s1, s2]
+    else:
+        inside, ispec = g.box(da, db)
+        ispec = [ispec]
+    d = inside.bubble(func=func, drawing_name="p")
+    xl = [dict(kind="bubble", dom=da, cod=db, func=cs, inside=ispec)]
+    dom = list(da)
+    shape = rng.choice(["alone", "before", "after", "both"])
+    if shape in ("before", "both"):
+        n = rng.choice([1, 2, 3])
+        pre, sp = g.box([n] if n > 1 else [], da, symbolic=rng.random() < 0.7)
+        d, xl, dom = pre >> d, [dict(sp, kind="box")] + xl, ([n] if n > 1 else [])
+    if shape in ("after", "both"):
+        n = rng.choice([1, 2])
+        post, sp = g.box(db, [n] if n > 1 else [], symbolic=rng.random() < 0.7)
+        d, xl = d >> post, xl + [dict(sp, kind="box")]
+    return d, dom, xl, "%s:%s:deg%d" % (shape, "composite" if composite else "box", len(cs) - 1)
+
+
+def bubble_stream(rep, drv, rng, n_cases, flag):
+    """Evaluation and gradient (number of terms, evaluation of the sum) of diagrams with a
+    polynomial bubble: tensor.Bubble.grad (chain rule through two spiders) on discopy against the
+    model's `xboxGrad` / `spiderSandwich`, compared exactly in polynomial normal form."""
+    syms = pl.symbols(True, NV)
+    lines, reals, cases = [], [], []
+    t0 = time.time()
+    for _ in range(n_cases):
+        r = random.Random(rng.getrandbits(64))
+        d, dom, xl, kind = bubble_model_case(r, syms)
+        tok = tok_xdiagram(dom, xl, syms)
+        rep.count("bubble_model_case:" + kind.split(":deg")[0])
+
+        def real_eval(d=d):
+            es = pl.entries(d.eval())
+            return "ok " + " ".join([str(len(es))] + [tok_poly(e, syms) for e in es])
+        reqs = [("xeval %s" % tok, real_eval)]
+        for vi in range(NV):
+            def real_grad(d=d, vi=vi):
+                gr = d.grad(syms[vi])
+                ev = gr.eval()
+                n = len(pl.entries(d.eval()))
+                es = pl.entries(ev) if not isinstance(ev, int) else [0] * n
+                # Box.grad / Bubble.grad of a one-box inside return the single term itself, not a Sum
+                nt = len(gr.terms) if hasattr(gr, "terms") else 1
+                return "ok %d %s" % (nt, " ".join([str(len(es))] + [tok_poly(e, syms) for e in es]))
+            reqs.append(("xgrad %d %d %s" % (flag, vi, tok), real_grad))
+        for line, fn in reqs:
+            lines.append(line)
+            cases.append(dict(diagram=str(d)[:200] + " | " + repr(d)[:300], kind=kind, request=line[:400]))
+            try:
+                reals.append(fn())
+            except Exception as exc:
+                reals.append("err " + err_class(exc))
+    answers = drv.ask_many(lines)
+    for line, case, real, model in zip(lines, cases, reals, answers):
+        stream = "model:" + line.split(" ")[0]
+        rep.count(stream)
+        rep.case(line, True)
+        if real != model:
+            rep.disagree(stream, case, real[:400], model[:400])
+    rep.extra["bubble_stream_s"] = round(time.time() - t0, 2)
 
 
 # --------------------------------------------------------------------------- run
@@ -386,7 +492,10 @@ def run(tier, seed, replay=None):
         "sympy.diff is the reference derivative (outside the model)",
         "per-gate rules are proved symbolically in nu = exp(i pi p(x)) over a commutative ring with a "
         "derivation; the identification of sympy's exp/sin/cos with such a ring is oracle-only",
-        "bubble gradients (chain rule through Spider(1, 2)) are oracle-only",
+        "bubble gradients: the chain rule and the two-spider construction of Bubble.grad are proved for "
+        "single-wire, un-nested bubbles with integer-polynomial functions (bubble' @ term read as a "
+        "Kronecker product) and compared exactly with the model (streams xeval/xgrad); bubbles with other "
+        "functions are oracle-only",
         "zx.Spider.grad is proved for the symmetric phase convention (as Rz); ZX diagrams have no "
         "evaluation in discopy 0.3.5 and are outside C15's quantifier: not exercised by the oracle",
     ]
@@ -403,7 +512,9 @@ def run(tier, seed, replay=None):
     rng = random.Random(seed)
     drv = Driver()
     try:
-        model_stream(rep, drv, random.Random(rng.getrandbits(64)), 40 if quick else 300)
+        flag = model_stream(rep, drv, random.Random(rng.getrandbits(64)), 40 if quick else 300)
+        # own generator: the cases of the other families stay those of earlier runs of the same seed
+        bubble_stream(rep, drv, random.Random(seed * 1000003 + 15), 14 if quick else 100, flag)
     finally:
         drv.close()
     syms = pl.symbols(True, 3)
